@@ -182,6 +182,19 @@ def narrow_int_elem(e, bits, signed):
     return core.If(ok, v, (v - lo) % (1 << bits) + lo)
 
 
+def _np_log2_elem(e):
+    """numpy's log2 on one element: -inf at 0 and nan below (with a warning numpy callers silence),
+    the uninterpreted log2 on positive values.  The sign is a solver-decided branch."""
+    if not isinstance(e, Sym):
+        with _np.errstate(all="ignore"):
+            return _np.log2(e)
+    if bool(e > 0):
+        return core.log2(e)
+    if bool(e == 0):
+        return float("-inf")
+    return float("nan")
+
+
 def round_elem(e, decimals=0):
     if isinstance(e, SymReal):
         r = e.__round__(decimals) if decimals else e.__round__()
@@ -495,7 +508,7 @@ class _NpFacade:
         return freal(x)
 
     def log2(self, x, *a, **k):
-        return self._ew(x, core.log2, _np.log2)
+        return self._ew(x, _np_log2_elem, _np.log2)
 
     def exp2(self, x, *a, **k):
         return self._ew(x, core.exp2, _np.exp2)
@@ -732,6 +745,42 @@ _NpFacade._minimum = _NpFacade.minimum
 _NpFacade._maximum = _NpFacade.maximum
 del _NpFacade.minimum
 del _NpFacade.maximum
+
+# -- private generators -----------------------------------------------------------
+# A RandomState the analysed code creates for itself (np.random.RandomState(seed)) is hidden state:
+# it is tracked so that every path execution starts from the state a fresh process would have
+# (re-seeded), while WITHIN one execution it advances from call to call as in the real program --
+# which is what the history-independence harnesses (C10) look at.
+_RS_REGISTRY = []
+
+
+class _TrackedRandomState(_np.random.RandomState):
+    def __init__(self, seed=None):
+        super().__init__(seed)
+        import weakref
+
+        self._symx_state0 = self.get_state()
+        _RS_REGISTRY.append(weakref.ref(self))
+
+
+def reset_random_states():
+    alive = []
+    for ref in _RS_REGISTRY:
+        rs = ref()
+        if rs is not None:
+            rs.set_state(rs._symx_state0)
+            alive.append(ref)
+    _RS_REGISTRY[:] = alive
+
+
+class _RandomModuleFacade:
+    RandomState = _TrackedRandomState
+
+    def __getattr__(self, name):
+        return getattr(_np.random, name)
+
+
+_NpFacade.random = _RandomModuleFacade()
 
 np = _NpFacade()
 np.minimum = _MinMaxUfunc(np, "minimum")
